@@ -1,28 +1,67 @@
 /-
   C11 — memoization is transparent and makes left recursion terminate.
 
-  FULL STATEMENT (the goal): for grammars of the C01/C02 classes (context-free of `ctx`) without left recursion, with
-  pairwise distinct memoized parsers, inserting `memoized()` at any subset of nodes leaves outcome, value, position,
-  errors and the pending error (up to the order of `expected`) unchanged; a left-recursive grammar whose recursive
-  step is memoized terminates on every input.
+  STATEMENT: for grammars of the C01/C02 classes (context-free of `ctx`) without left recursion, with pairwise distinct
+  memoized parsers, inserting `memoized()` at any subset of nodes leaves outcome, value, position, errors and the pending
+  error (up to the order of `expected`) unchanged; a left-recursive grammar whose recursive step is memoized terminates.
 
-  PROVED HERE (partial — the induction through *all other* constructors in the offset relation `MRel` is not done):
-   * the node itself: `memoized id a` with the table on simulates `a`, given the simulation of its body, in the
-     miss/success, miss/failure (entry stored) and hit (stored failure replayed at its own position) cases, and
-     re-establishes the table invariant "every stored error is exactly what that parser contributes at that position";
-   * with memoization off a grammar equals the grammar with its `memoized` nodes stripped (so every memo-free theorem
-     applies to it);
-   * the hypotheses are necessary: kernel-checked counterexamples for a context-dependent body, a shared id, left
-     recursion (where ON terminates and OFF does not) and a recovery strategy under `memoized`.
+  PROVED (Lemmas/MemoFull.lean, 2 400 lines, on top of MemoSim/MemoOff/Summ/AltInv): the full transparency theorem by
+  induction on fuel and cases on EVERY constructor of the syntactic class `G.memoSafe` — all primitives, sequencing, tuple and
+  slice choice, `or_not`, `not`, `and_is`, `rewind`, value maps, `filter`, `try_map(_with)`, span/slice captures, `validate`,
+  every iteration consumer over every iterable parser, `labelled`/`as_context`, `map_err`, `boxed`, `with_state`, and
+  `memoized` at any node — for an ARBITRARY sheltered pending error (the offset relation `MRel`), preserving the table
+  invariant. Hypotheses: `memoSafe`, pairwise distinct ids (`memoIds.Nodup`). Outside the class, each with a kernel-checked
+  counterexample or reason: context readers (`cex_ctx`: the key is (position, parser)), recovery strategies under
+  `memoized` (`cex_recovery`: they read the pending error that `memoized` shelters), `call` (a hit saves fuel, so ON and OFF
+  cannot be compared at equal fuel: `cex_fuel`; left recursion is `c11_left_recursion_witness`), and the four context
+  providers (harmless, not done).
+  REMAINING GAP (named `…_partial` below): for grammars that contain `validate`, on a FAILED parse only the primary error is
+  related, not the whole secondary list (the `validate`-free class gets the full list).
   The model's memo semantics is the one of the repaired code (shelter the pending error, memoize only the parser's own
-  contribution, replay at its own position, key = per-parser id); the check compares memoized and plain grammars on
-  the real crate (all results identical on ≈ 8·10⁶ cases) and the model with the real crate.
-  Lemmas: Proofs/Lemmas/{MemoSim,MemoOff}.lean.
+  contribution, replay at its own position, key = per-parser id); the check compares memoized and plain grammars on the real
+  crate and the model with the real crate.
 -/
 import ChumskyModel.Proofs.Lemmas.MemoSim
 import ChumskyModel.Proofs.Lemmas.MemoOff
+import ChumskyModel.Proofs.Lemmas.MemoFull
 set_option linter.unusedSimpArgs false
 namespace Chumsky
+
+/-- **C11 (transparency), full statement for the `validate`-free class.** For every grammar of the class with pairwise
+    distinct memoized parsers, every input, mode and fuel: `parse`/`check` of the grammar with its `memoized()` nodes equals
+    `parse`/`check` of the same grammar with every `memoized()` removed — same acceptance, same output, and the whole error
+    list pointwise equal up to the order of `expected` (`Err.equiv`). -/
+theorem c11_transparent (N : Nat) (env : Env) (hon : env.memoOn = true) (g : G) (hg : g.memoSafe true = true)
+    (hnd : g.memoIds.Nodup) (m : Mode) :
+    TopMemoRelFull (parseTop N env m g)
+      (parseTop N { env with memoOn := true, defs := stripMemoL env.defs } m g.stripMemo) :=
+  parseTop_memo_vs_plain_full N env hon g hg hnd m
+
+/-- **C11 (transparency) with `validate` in the class — partial in one clause.** Same acceptance and output; when there is
+    an output the error lists are EQUAL (all emitted errors, in order); when there is none, the primary error is equal up
+    to `Err.equiv` — missing: equality of the secondary errors that precede it on a failed parse. -/
+theorem c11_transparent_with_validate_partial (N : Nat) (env : Env) (hon : env.memoOn = true) (g : G)
+    (hg : g.memoSafe false = true) (hnd : g.memoIds.Nodup) (m : Mode) :
+    TopMemoRel (parseTop N env m g)
+      (parseTop N { env with memoOn := true, defs := stripMemoL env.defs } m g.stripMemo) :=
+  parseTop_memo_vs_plain N env hon g hg hnd m
+
+/-- the machine-level statement behind both: from any state with an empty table, the memoized and the unmemoized run
+    agree on outcome, value, position, secondary errors, inspector, context and (up to ≈) the pending error -/
+theorem c11_run_transparent (N : Nat) (env : Env) (hon : env.memoOn = true) (g : G) (hg : g.memoSafe false = true)
+    (hnd : g.memoIds.Nodup) (m : Mode) (s : St) (hs : s.memo = []) :
+    match run N env m g s, run N (env.withMemo false) m g s with
+    | .ok v s1, .ok v' t1 => v = v' ∧ s1.pos = t1.pos ∧ s1.errs = t1.errs ∧ s1.insp = t1.insp ∧ s1.ctx = t1.ctx ∧
+        OptLoc.equiv s1.alt t1.alt
+    | .fail s1, .fail t1 => OptLoc.equiv s1.alt t1.alt ∧ s1.alt.isSome = true ∧ s.errs <+: s1.errs ∧ s.errs <+: t1.errs ∧
+        s1.ctx = s.ctx ∧ t1.ctx = s.ctx
+    | .panic w, .panic w' => w = w'
+    | .oof, .oof => True
+    | _, _ => False :=
+  run_memo_transparent_empty N env hon g hg hnd m s hs
+
+/-- non-vacuity: two memoized nodes, one of them under a repetition and around a `validate` -/
+example : memoExample.memoSafe false = true ∧ memoExample.memoIds.Nodup := by decide
 
 /-- **C11 (one node), partial.** See the header. `MRel`/`MOutRel`: equal position, secondary errors, inspector,
     context, values; pending errors equal up to `OptLoc.equiv` modulo the error the ON run has sheltered. -/
@@ -72,6 +111,9 @@ theorem c11_context_dependence_witness :
     (parseTop 20 { toks := [2], defs := defs, memoOn := false } .emit g).accepted = some true :=
   cex_ctx
 
+#print axioms c11_transparent
+#print axioms c11_transparent_with_validate_partial
+#print axioms c11_run_transparent
 #print axioms c11_node_transparent_partial
 #print axioms c11_hit_replays
 #print axioms c11_memo_off_is_plain
